@@ -1,0 +1,186 @@
+//! Verification hooks (cargo feature `verif-hooks`, off by default).
+//!
+//! Scheduling seams for the model-checking harness in /verif. A harness
+//! installs a per-thread hook; without one every function here is a no-op, so
+//! production control flow is unchanged even with the feature on.
+//!
+//! - [`yield_point`]: an `.await`-able switch point for async code. When the
+//!   installed hook answers `true` the future returns `Pending` exactly once
+//!   (after waking itself), handing control back to the harness executor.
+//! - [`sched_point`]: a synchronous switch point for threaded code. The hook is
+//!   simply called; a thread-based harness blocks inside it until the explorer
+//!   hands the baton back.
+//! - [`atomic`] / [`sync`]: drop-in wrappers around the std atomics and the
+//!   tokio `Mutex` that pass through one of the two points before every access,
+//!   so that *every* access (including ones added later) is a switch point.
+
+use std::cell::RefCell;
+use std::future::Future;
+use std::pin::Pin;
+use std::task::{Context, Poll};
+
+type Hook = Box<dyn FnMut(&'static str) -> bool>;
+
+thread_local! {
+    static HOOK: RefCell<Option<Hook>> = const { RefCell::new(None) };
+}
+
+/// Install (or with `None` remove) the calling thread's scheduling hook.
+pub fn install(hook: Option<Hook>) {
+    HOOK.with(|h| *h.borrow_mut() = hook);
+}
+
+fn call(tag: &'static str) -> bool {
+    // Take the hook out while it runs so a re-entrant point is a no-op.
+    let taken = HOOK.with(|h| h.borrow_mut().take());
+    match taken {
+        None => false,
+        Some(mut f) => {
+            let r = f(tag);
+            HOOK.with(|h| {
+                let mut slot = h.borrow_mut();
+                if slot.is_none() {
+                    *slot = Some(f);
+                }
+            });
+            r
+        }
+    }
+}
+
+/// Synchronous switch point.
+pub fn sched_point(tag: &'static str) {
+    let _ = call(tag);
+}
+
+/// Future returned by [`yield_point`].
+pub struct YieldPoint {
+    tag: &'static str,
+    asked: bool,
+}
+
+impl Future for YieldPoint {
+    type Output = ();
+
+    fn poll(mut self: Pin<&mut Self>, cx: &mut Context<'_>) -> Poll<()> {
+        if self.asked {
+            return Poll::Ready(());
+        }
+        self.asked = true;
+        if call(self.tag) {
+            cx.waker().wake_by_ref();
+            Poll::Pending
+        } else {
+            Poll::Ready(())
+        }
+    }
+}
+
+/// Asynchronous switch point.
+pub fn yield_point(tag: &'static str) -> YieldPoint {
+    YieldPoint { tag, asked: false }
+}
+
+/// Atomics that pass through [`sched_point`] before every access.
+pub mod atomic {
+    use std::sync::atomic::Ordering;
+
+    use super::sched_point;
+
+    macro_rules! wrap {
+        ($name:ident, $inner:ty, $val:ty) => {
+            #[derive(Debug, Default)]
+            pub struct $name($inner);
+
+            impl $name {
+                pub fn new(v: $val) -> Self {
+                    Self(<$inner>::new(v))
+                }
+
+                pub fn load(&self, o: Ordering) -> $val {
+                    sched_point(concat!(stringify!($name), "::load"));
+                    self.0.load(o)
+                }
+
+                pub fn store(&self, v: $val, o: Ordering) {
+                    sched_point(concat!(stringify!($name), "::store"));
+                    self.0.store(v, o)
+                }
+
+                pub fn swap(&self, v: $val, o: Ordering) -> $val {
+                    sched_point(concat!(stringify!($name), "::swap"));
+                    self.0.swap(v, o)
+                }
+
+                pub fn compare_exchange(
+                    &self,
+                    cur: $val,
+                    new: $val,
+                    s: Ordering,
+                    f: Ordering,
+                ) -> Result<$val, $val> {
+                    sched_point(concat!(stringify!($name), "::compare_exchange"));
+                    self.0.compare_exchange(cur, new, s, f)
+                }
+            }
+        };
+    }
+
+    macro_rules! wrap_int {
+        ($name:ident, $inner:ty, $val:ty) => {
+            wrap!($name, $inner, $val);
+
+            impl $name {
+                pub fn fetch_add(&self, v: $val, o: Ordering) -> $val {
+                    sched_point(concat!(stringify!($name), "::fetch_add"));
+                    self.0.fetch_add(v, o)
+                }
+
+                pub fn fetch_sub(&self, v: $val, o: Ordering) -> $val {
+                    sched_point(concat!(stringify!($name), "::fetch_sub"));
+                    self.0.fetch_sub(v, o)
+                }
+
+                pub fn fetch_max(&self, v: $val, o: Ordering) -> $val {
+                    sched_point(concat!(stringify!($name), "::fetch_max"));
+                    self.0.fetch_max(v, o)
+                }
+
+                pub fn fetch_min(&self, v: $val, o: Ordering) -> $val {
+                    sched_point(concat!(stringify!($name), "::fetch_min"));
+                    self.0.fetch_min(v, o)
+                }
+            }
+        };
+    }
+
+    wrap!(AtomicBool, std::sync::atomic::AtomicBool, bool);
+    wrap_int!(AtomicU8, std::sync::atomic::AtomicU8, u8);
+    wrap_int!(AtomicI32, std::sync::atomic::AtomicI32, i32);
+    wrap_int!(AtomicU64, std::sync::atomic::AtomicU64, u64);
+}
+
+/// A tokio `Mutex` whose `lock()` passes through [`yield_point`] first.
+pub mod sync {
+    use super::yield_point;
+
+    #[derive(Debug, Default)]
+    pub struct Mutex<T>(tokio::sync::Mutex<T>);
+
+    impl<T> Mutex<T> {
+        pub fn new(v: T) -> Self {
+            Self(tokio::sync::Mutex::new(v))
+        }
+
+        pub async fn lock(&self) -> tokio::sync::MutexGuard<'_, T> {
+            yield_point("Mutex::lock").await;
+            let g = self.0.lock().await;
+            yield_point("Mutex::locked").await;
+            g
+        }
+
+        pub fn try_lock(&self) -> Result<tokio::sync::MutexGuard<'_, T>, tokio::sync::TryLockError> {
+            self.0.try_lock()
+        }
+    }
+}
